@@ -95,6 +95,17 @@ def run_job(job, rec):
 
         if form == "int":
             ya, ea, Aa = y.astype(np.int64), y_err.astype(np.int64), A.astype(np.int64)
+            if rng.random() < 0.6:
+                # the narrowest integer types that hold the values
+                def narrow(a, kinds):
+                    for dt in kinds:
+                        ii = np.iinfo(dt)
+                        if a.min() >= ii.min and a.max() <= ii.max:
+                            return a.astype(dt)
+                    return a
+
+                ya, ea, Aa = narrow(ya, [np.int8, np.int16, np.int32]), narrow(ea, [np.uint8, np.uint16, np.int32]), narrow(Aa, [np.int8, np.int16])
+                rec.count(f"forms:int:{ya.dtype}/{ea.dtype}/{Aa.dtype}")
         elif form == "f32":
             ya, ea, Aa = y.astype(np.float32), y_err.copy(), A.copy()
         else:
